@@ -7,14 +7,71 @@ RULE = ('C14 histories on charts whose handlers also defer the current event and
         'each recall return value (ground-truth log) must be the oldest entry of a deferred-deque model (None when it is empty, then '
         'nothing may be posted), a recalled event joins the BACK of the pending model, the deferred length must match after every '
         'step and the dispatch order of all events must equal the model (so a deferred event is never dispatched before its recall). '
-        'distinct_nontrivial = distinct (host, defers, recalls, recalls-on-empty, steps) tuples with >= 1 defer or recall')
+        'Every sixth case runs 2-3 threads that recall at the same time (fewer recalls than deferred events) under detsched: each of the '
+        'oldest events must be returned and queued exactly once. distinct_nontrivial = distinct (host, defers, recalls, recalls-on-empty, steps) tuples with >= 1 defer or recall')
 CASES = {'quick': 4000, 'thorough': 250000}
-BUDGET = {'quick': 40, 'thorough': 900}
-REQUIRE = {'defers': 1000, 'recalls': 1000, 'recalls_on_empty': 100}
+BUDGET = {'quick': 40, 'thorough': 300}
+REQUIRE = {'defers': 1000, 'recalls': 1000, 'recalls_on_empty': 100, 'overlapping_recall_runs': 300}
 ASSUME = ['queue capacity (500) is not reached']
 
 
+def overlapping_recalls(ctx, n):
+  """recalls issued by several threads at once (an active object's handlers and other threads may both recall):
+  under every interleaving each deferred event is recalled at most once, oldest first, and lands in the queue once"""
+  import miros.hsm as H
+  from miros.event import Event
+  from vt import detsched as ds, aosim
+  rng = ctx.rng('overlap', n)
+  k = rng.randint(3, 8)
+  nthreads = rng.randint(2, 3)
+  per = [rng.randint(1, 2) for _ in range(nthreads)]
+  while sum(per) >= k:
+    per[rng.randrange(nthreads)] -= 1 if max(per) > 1 else 0
+    if sum(per) >= k:
+      k += 1
+  pol = dict(policy='random', p_switch=rng.choice([0.1, 0.3, 0.6])) if rng.random() < 0.7 else dict(policy='pct', pct_depth=3, pct_len=150)
+  s = ds.Sched(seed=rng.randrange(1 << 30), max_steps=500000, **pol)
+  ds.install(s, line_mods=[H], line_funcs={H: aosim.HSM_FUNCS}, log_deque=False)
+  try:
+    chart = H.HsmWithQueues(instrumented=rng.random() < 0.5)
+    evs = [Event(signal='C15_D%d' % (i % 3), payload=i) for i in range(k)]
+    for e in evs:
+      chart.defer(e)
+    got = [[] for _ in range(nthreads)]
+
+    def worker(i):
+      for _ in range(per[i]):
+        got[i].append(chart.recall())
+    try:
+      ths = [ds.SThread(target=worker, args=(i,)) for i in range(nthreads)]
+      for t in ths:
+        t.start()
+      for t in ths:
+        t.join()
+    except ds.Verdict as v:
+      ctx.violation('C15/overlapping-recalls-' + v.kind, 'overlapping recalls ended in %s' % v.kind, {'deferred': k, 'recalls_per_thread': per})
+      return
+    ctx.count('overlapping_recall_runs')
+    ctx.distinct(('overlap', k, tuple(per), s.signature()[:20]))
+    wit = {'deferred': k, 'recalls_per_thread': per, 'policy': pol, 'returned': [[None if e is None else e.payload for e in g] for g in got]}
+    exc = [(t.name, repr(t.exc)) for t in s.threads if t.exc is not None]
+    if exc:
+      ctx.violation('C15/overlapping-recalls-exception', 'a recalling thread raised: %r' % exc, wit)
+      return
+    ret = [e.payload for g in got for e in g if e is not None]
+    m = sum(per)
+    if sorted(ret) != list(range(m)):
+      ctx.violation('C15/overlapping-recalls-not-oldest-first-once', '%d overlapping recalls of %d deferred events returned %r; each of the %d oldest events must be returned exactly once' % (m, k, sorted(ret), m), wit)
+      return
+    if sorted(e.payload for e in chart.queue) != list(range(m)) or [e.payload for e in chart.defer_queue] != list(range(m, k)):
+      ctx.violation('C15/overlapping-recalls-queues', 'after the recalls the queue holds %r and the deferred queue %r' % ([e.payload for e in chart.queue], [e.payload for e in chart.defer_queue]), wit)
+  finally:
+    ds.uninstall()
+
+
 def run_case(ctx, n):
+  if n % 6 == 5:
+    return overlapping_recalls(ctx, n)
   r = qcheck.run_qcase(ctx, n, ('C15', 'C14'), allow_defer=True, spied=(True, False), instrumented=(True, False))
   if r is None:
     return
